@@ -7,12 +7,14 @@ import (
 	"net/url"
 	"strconv"
 
+	spb "google.golang.org/genproto/googleapis/rpc/status"
 	"google.golang.org/grpc"
 	"google.golang.org/grpc/codes"
 	"google.golang.org/grpc/metadata"
 	"google.golang.org/grpc/status"
 	"google.golang.org/protobuf/proto"
 	"google.golang.org/protobuf/reflect/protoreflect"
+	"google.golang.org/protobuf/types/known/anypb"
 )
 
 func init() {
@@ -244,8 +246,17 @@ func VerifH_proxy() {
 	sc := &vfBackendScript{}
 	obs := &vfBackendObs{}
 	fail := vfBool()
+	withDetails := false
 	if fail {
-		sc.final = status.Error([]codes.Code{codes.NotFound, codes.Canceled, codes.Unavailable}[vfChoice(3)], "be")
+		switch fc := vfChoice(4); fc {
+		case 3:
+			// a status with details and an EMPTY message
+			sc.final = status.FromProto(&spb.Status{Code: int32(codes.FailedPrecondition), Details: []*anypb.Any{{TypeUrl: "type.googleapis.com/vf.D", Value: []byte{8, 1}}}}).Err()
+			withDetails = true
+			vfCover("status-with-details")
+		default:
+			sc.final = status.Error([]codes.Code{codes.NotFound, codes.Canceled, codes.Unavailable}[fc], "be")
+		}
 		if ss {
 			sc.failAt = vfChoice(3)
 		} else if vfBool() {
@@ -283,10 +294,12 @@ func VerifH_proxy() {
 		hold = false // such a call never ends, directly or proxied
 	}
 	mdv := "v0"
+	grpcKey := false
 	mdvals := []string{mdv}
 	if vfBool() {
 		mdvals = []string{mdv, "second", "third"} // a metadata key with several values: all of them, in order
 		vfCover("multi-valued-metadata")
+		grpcKey = true // and a key that starts with "grpc-" without being one of the protocol's own
 	}
 	// a client that neither sends a message nor ends its stream: the proxy handler is still waiting
 	// for the first message when nothing else can happen; covered by F-D37's description, not explored
@@ -317,6 +330,9 @@ func VerifH_proxy() {
 	r := &http.Request{Method: "POST", URL: &url.URL{Path: "/vf.P/" + name},
 		Header: http.Header{"Content-Type": []string{"application/grpc+dual"}, "Te": []string{"trailers"}, "X-Md": mdvals},
 		Body:   hb, ContentLength: -1, ProtoMajor: 2}
+	if grpcKey {
+		r.Header["Grpc-Previous-Rpc-Attempts"] = []string{"2"}
+	}
 	w := newFakeRW()
 	vfWatchdog(func() {
 		mux.ServeHTTP(w, r)
@@ -357,15 +373,27 @@ func VerifH_proxy() {
 		wantCode = strconv.Itoa(int(status.Code(sc.final)))
 	}
 	vfCheck(len(gs) == 1 && gs[0] == wantCode, "the client did not receive the backend's final status code")
-	if fail {
+	if fail && !withDetails {
 		gm, _ := w.trailer("Grpc-Message")
 		vfCheck(len(gm) == 1 && gm[0] == "be", "the client did not receive the backend's status message")
+	}
+	if withDetails {
+		db, _ := w.trailer("Grpc-Status-Details-Bin")
+		vfCheck(len(db) == 1, "the client did not receive the backend's status details")
+		if len(db) == 1 {
+			raw, ok := refProtoJSONBytes(db[0])
+			c, m, ds, pok := refParseRPCStatus(raw)
+			vfCheck(ok && pok && c == int64(codes.FailedPrecondition) && m == "" && len(ds) == 1 && ds[0].url == "type.googleapis.com/vf.D" && vfBytesEq(ds[0].val, []byte{8, 1}), "the status details the client received differ from the backend's")
+		}
 	}
 	// what the backend received
 	vfCheck(obs.calls == 1, "the backend was not called exactly once")
 	vfCheck(len(obs.md) == len(mdvals), "the backend did not receive the client's request metadata (all values of the key)")
 	for i := range mdvals {
 		vfCheck(i < len(obs.md) && obs.md[i] == mdvals[i], "the backend did not receive the client's request metadata values in order")
+	}
+	if grpcKey {
+		vfCheck(len(obs.mdGrpc) == 1 && obs.mdGrpc[0] == "2", "request metadata under a key starting with grpc- (not a protocol header) did not reach the backend")
 	}
 	if drained || (!cs && !(fail && sc.failAt == 0)) {
 		// the backend read the whole request stream
